@@ -130,6 +130,9 @@ def KAtom.validator (spec : String) : Option (Callback KAtom KAtom) :=
   | ["tostr"] => some (fun _ x => .ok (.str x.val))                 -- str(x)
   | ["intonly"] => some (fun _ x => match x with | .int _ => .ok x | .str _ => .error .traitError)
   | ["rejneg"] => some (fun _ x => if x.val < 0 then .error .traitError else .ok x)
+  | ["range05"] => some (fun _ x => match x with                     -- Range(0, 5): an int in 0..5
+      | .int n => if 0 ≤ n ∧ n ≤ 5 then .ok x else .error .traitError
+      | .str _ => .error .traitError)
   | ["mod5"] => some (fun _ x => .ok (.int (x.val % 5)))            -- int(x) % 5 (Python floor mod)
   | ["inc"] => some (fun _ x => .ok (.int (x.val + 1)))             -- int(x) + 1, not idempotent
   | ["failk", k, e] =>
